@@ -175,3 +175,14 @@ CLAIMED['C09'] = (
     NOTE_COMMON + 'add_div_mod and add_sqrt value theorems not proved yet (partial; frame theorem applies; correspondence + exhaustive oracle). '
     'Width 0 excluded.',
     'Lean 4 proof (free-monad program logic + chain invariants) + gate-exact correspondence + exhaustive evaluation oracle')
+CLAIMED['C08'] = (
+    'DESIGN.md 5/C08',
+    'Through the program logic of C07: frame theorem for every mode; the partial-product matrix sums to a*b; add_mul_alter = a*b '
+    'exactly for all widths and both endiannesses; add_mul (DEFAULT) = a*b as a weighted sum with strictly increasing levels. All six '
+    'multiplication modes (incl. both Karatsuba variants with their recursion thresholds, Dadda, Wallace, 2^k-1) and both squarers '
+    '(incl. the split at n>=48) are modelled one-to-one and compared gate for gate (uuid pinned) on hosts built through the public API '
+    '(widths to 40x40 / 56); the search checks the real generators exhaustively for n+m<=12 and on random, extreme and dense operands '
+    'above (widths chosen where each mode changes behaviour), result widths, and host operands that are internal gates.',
+    NOTE_COMMON + 'Value theorems for Karatsuba, Dadda, Wallace, 2^k-1, squarers and the positional decode/width of DEFAULT are not proved yet '
+    '(partial; gate-exact correspondence + oracle).',
+    'Lean 4 proof (free-monad program logic, partial-product lemma, shift-add invariant) + gate-exact correspondence + value oracle')
